@@ -63,19 +63,37 @@ Theorem C03_no_duplicate : forall c h g oi sent u,
 Proof. exact nf_no_duplicate. Qed.
 Print Assumptions C03_no_duplicate.
 
-(* a Problem sent by a tick with no Problem stashed and no Problem withheld is a reminder: hard problem state,
-   not suppressed, reachable, no downtime, not acknowledged, not flapping; at least [interval] after the previous
-   Problem that passed the filters (g_rem: no operation in between in which an unforced Problem could have been
-   deferred by times.begin - C03_deferral_call says exactly what such a deferral does -, clock not set back); with interval <= 0
-   none once a Problem passed the filters for the incident - unless the recorded finding "nomore-reset" applies *)
+(* Reminders.  In a tick the stashed Problem entries and a withheld Problem (re-sent only if the last check
+   result still is a problem) account for at most [oi_kp] Problem notifications; every further Problem of the same
+   tick ([g_cnt] = Problem notifications already sent by this tick) IS the reminder - this includes the tick in
+   which the timer itself delivers the incident's first Problem from the stash / the withheld types.  A reminder
+   implies: hard problem state, not suppressed, reachable, no downtime, not acknowledged, not flapping; at least
+   [interval] after the previous Problem that passed the filters (g_rem: no operation in between in which an
+   unforced Problem could have been deferred by times.begin - C03_deferral_call -, clock not set back); with
+   interval <= 0 none once a Problem passed the filters for the incident - unless the recorded finding
+   "nomore-reset" applies *)
 Theorem C03_reminders : forall c h g oi sent,
   In (g, oi, NfoDone NfProblem sent) (nf_run_points c h) ->
-  oi_tick oi = true -> oi_remposs oi = true ->
+  oi_tick oi = true -> oi_kp oi <= g_cnt g ->
   nf_rem_ctx_ok c (oi_ctx oi) = true /\
   (forall t, g_rem g = Some t -> t + nfc_interval c <= oi_now oi) /\
   (nfc_interval c <= 0 -> nf_nomore_reset g = false -> g_ps g = false).
 Proof. exact nf_reminders. Qed.
 Print Assumptions C03_reminders.
+
+(* the tick in which the timer delivers the first Problem (interval 0): one Problem, accounted for by the withheld
+   type; an implementation sending a second one in that tick is rejected by the interval-0 clause (rule 6) *)
+Theorem C03_first_problem_by_timer :
+  nf_oracle nf_w_nomore_cfg (nf_model_trace nf_w_nomore_cfg nf_init nf_w_timer_hist) = (None, None) /\
+  map (fun p => (oi_kp (snd (fst p)), g_cnt (fst (fst p)), snd p)) (nf_run_points nf_w_nomore_cfg nf_w_timer_hist)
+    = [(1, 0, NfoDone NfProblem [1])] /\
+  fst (nf_oracle nf_w_nomore_cfg
+        [{| os_op := NfRequest 2000000000 (nf_w_ctx_per 2 true) NfProblem false; os_evs := []; os_stash := [];
+            os_sup_problem := true |};
+         {| os_op := NfTick 2000000010 (nf_w_ctx_per 2 false); os_evs := [NfoDone NfProblem [1]; NfoDone NfProblem [1]];
+            os_stash := []; os_sup_problem := false |}]) = Some (1, 6).
+Proof. exact nf_timer_first_problem. Qed.
+Print Assumptions C03_first_problem_by_timer.
 
 (* the reminder branch of the timer handler, from ANY state *)
 Theorem C03_reminder_call : forall c now x s s' e,
@@ -99,7 +117,7 @@ Print Assumptions C03_deferral_call.
 Theorem C03_nomore_reset_refuted :
   exists g oi sent,
     In (g, oi, NfoDone NfProblem sent) (nf_run_points nf_w_nomore_cfg nf_w_nomore_hist) /\
-    oi_tick oi = true /\ oi_remposs oi = true /\ sent = [1] /\
+    oi_tick oi = true /\ oi_kp oi <= g_cnt g /\ sent = [1] /\
     nfc_interval nf_w_nomore_cfg <= 0 /\ g_ps g = true /\ nf_nomore_reset g = true /\
     snd (nf_oracle nf_w_nomore_cfg (nf_model_trace nf_w_nomore_cfg nf_init nf_w_nomore_hist)) = Some (2, 101).
 Proof. exact nf_nomore_refuted. Qed.
